@@ -98,4 +98,20 @@ theorem C06_can_no_lookahead (st : RxSt) (s t : List CanItem) :
       (shiftLeftCan t.length (canCalls st s).1 ++ (canCalls (canCalls st s).2 t).1, (canCalls (canCalls st s).2 t).2) :=
   Ross.canCalls_append st s t
 
+/-! non-vacuity (kernel-evaluated): a corrupted link frame (three non-delimiter bytes announced as a frame) and a would-block,
+then two small packets back to back: one frame error, then both packets intact; and an interrupted ten-byte packet
+(only its first frame arrives) before the same two probes: the first probe is dropped with a reassembly error, the
+second is delivered intact — the two branches of `ProbeOutcome` -/
+example :
+    let a : Packet := ⟨false, 7, [1, 2]⟩
+    let b : Packet := ⟨true, 8, [3]⟩
+    emitsOf (usartPolls LinkSt.init (.wouldBlock :: (wireOf ([[9, 9, 9]] ++ usartBodies a ++ usartBodies b)).map .byte)) =
+      [.emit (.frameErr .cobsError), .emit (.packet a), .emit (.packet b)] := by decide
+example :
+    let a : Packet := ⟨false, 7, [1, 2]⟩
+    let b : Packet := ⟨true, 8, [3]⟩
+    let big : Packet := ⟨false, 7, [1, 2, 3, 4, 5, 6, 7, 8, 9, 10]⟩
+    emitsOf (usartPolls LinkSt.init ((wireOf ((usartBodies big).take 1 ++ usartBodies a ++ usartBodies b)).map .byte)) =
+      [.emit (.builderErr .outOfOrder), .emit (.packet b)] := by decide +kernel
+
 end Ross.Props
